@@ -242,29 +242,36 @@ func checkBounds(c *Ctx, rule string, keep func(s bceSite) bool, contained func(
 			c.ob(rule, key, pos, true, how)
 			continue
 		}
-		// reviewed table
-		var entry *boundsEntry
+		// reviewed strategies: the table lists, site by site, the argument that was reviewed; what is re-checked here is
+		// the argument (its machine-checkable requirements), not the spelling of the site — a renamed variable or an
+		// extracted helper changes the spelling, not the argument
+		var tried []string
+		done := false
+		seenStrat := map[string]bool{}
 		for i := range table {
-			if s.Fn != nil && table[i].Func == s.Fn.Name && table[i].Expr == exprStr(s.Node) {
-				entry = &table[i]
+			strat := strings.Join(table[i].Requires, ",")
+			if seenStrat[strat] || len(table[i].Requires) == 0 {
+				continue
 			}
-		}
-		if entry == nil {
-			c.ob(rule, key, pos, false, "index/slice operation the compiler cannot prove in bounds, with no entailing guard and no reviewed reason: "+how)
-			continue
-		}
-		okAll := true
-		var fails []string
-		for _, req := range entry.Requires {
-			if ok, why := checkRequirement(c, w, s, req); !ok {
-				okAll = false
-				fails = append(fails, req+": "+why)
+			seenStrat[strat] = true
+			okAll := true
+			why := ""
+			for _, req := range table[i].Requires {
+				if ok, w1 := checkRequirement(c, w, s, req); !ok {
+					okAll = false
+					why = req + ": " + w1
+					break
+				}
 			}
+			if okAll {
+				c.ob(rule, key, pos, true, "reviewed argument ["+strat+"]: "+table[i].Reason)
+				done = true
+				break
+			}
+			tried = append(tried, why)
 		}
-		if okAll {
-			c.ob(rule, key, pos, true, "reviewed: "+entry.Reason+" [requirements re-checked: "+strings.Join(entry.Requires, ", ")+"]")
-		} else {
-			c.ob(rule, key, pos, false, "the reviewed reason ("+entry.Reason+") no longer holds: "+strings.Join(fails, "; "))
+		if !done {
+			c.ob(rule, key, pos, false, "index/slice operation the compiler cannot prove in bounds, with no entailing guard ("+how+") and no reviewed argument that applies: "+shorten(strings.Join(tried, " | "), 600))
 		}
 	}
 }
@@ -450,6 +457,12 @@ func checkRequirement(c *Ctx, w *World, s bceSite, req string) (bool, string) {
 		if offsets == nil {
 			return false, "no offsets slice recognised"
 		}
+		if ixe, ok := s.Node.(*ast.IndexExpr); ok {
+			tv, ok := info.Types[ixe.Index]
+			if !ok || tv.Value == nil || (tv.Value.ExactString() != "0" && tv.Value.ExactString() != "1") {
+				return false, "FindStringIndex returns a pair: the index must be the constant 0 or 1"
+			}
+		}
 		src := x.str(offsets)
 		i := strings.Index(src, ".FindStringIndex(")
 		if i < 0 || !strings.HasSuffix(src, ")") {
@@ -491,8 +504,103 @@ func checkRequirement(c *Ctx, w *World, s bceSite, req string) (bool, string) {
 		}
 		return true, ""
 	case req == "waiting":
+		// the host's choice, used as an index into the presented option group under the waiting predicate
 		m := w.runner()
+		ix, ok := s.Node.(*ast.IndexExpr)
+		if !ok || m.next == nil || m.next.Sig().Params().Len() < 1 {
+			return false, "not an index expression in the runner"
+		}
+		id := identOf(ix.Index)
+		if id == nil || info.Uses[id] != types.Object(m.next.Sig().Params().At(0)) {
+			return false, "the index is not the choice parameter of Next"
+		}
+		root, fields := fieldChain(info, ix.X)
+		_ = root
+		if len(fields) < 3 || fields[len(fields)-1].Name() != "Options" || fields[len(fields)-3] != m.fLast {
+			return false, "the indexed slice is not the option list of the statement the runner waits on"
+		}
 		return underWaitingTest(w, m, s.Node)
+	case req == "variadic-numin":
+		// the index starts at T.NumIn()-1 and is only incremented, in a function that is only called under T.IsVariadic():
+		// a variadic function type has at least one parameter
+		ix, ok := s.Node.(*ast.IndexExpr)
+		if !ok {
+			return false, "not an index expression"
+		}
+		id := identOf(ix.Index)
+		if id == nil {
+			return false, "index is not a variable"
+		}
+		obj := info.Uses[id]
+		root := w.rootOf(s.Fn)
+		rx := w.expander(root)
+		starts := 0
+		for _, a := range e.assigns[obj] {
+			switch a := a.(type) {
+			case *ast.IncDecStmt:
+				if a.Tok != token.INC {
+					return false, "the index is decremented"
+				}
+			case *ast.AssignStmt:
+				if len(a.Rhs) != 1 || len(a.Lhs) != 1 {
+					return false, "unrecognised assignment to the index"
+				}
+				b, ok := unparen(a.Rhs[0]).(*ast.BinaryExpr)
+				if !ok || b.Op != token.SUB {
+					return false, "the index does not start at NumIn()-1"
+				}
+				if tv, ok := info.Types[b.Y]; !ok || tv.Value == nil || tv.Value.ExactString() != "1" {
+					return false, "the index does not start at NumIn()-1"
+				}
+				src := x.str(b.X)
+				if !strings.HasSuffix(src, ".NumIn()") {
+					src = rx.str(b.X)
+				}
+				if !strings.HasSuffix(src, ".NumIn()") || !strings.HasPrefix(src, "$") {
+					return false, "the index starts at " + src + " - 1, not at a parameter's NumIn()-1"
+				}
+				starts++
+			default:
+				return false, "unrecognised assignment to the index"
+			}
+		}
+		if starts != 1 || root.Obj == nil {
+			return false, "the index has no single start at NumIn()-1"
+		}
+		// every call of the enclosing declaration sits in the true branch of an IsVariadic() test
+		calls := 0
+		for _, g := range w.Funcs {
+			if g.Body == nil || g.Pkg != root.Pkg {
+				continue
+			}
+			gx := w.expander(g)
+			bad := ""
+			walkNoLit(g.Body, func(n ast.Node) bool {
+				call, ok := n.(*ast.CallExpr)
+				if !ok || calleeOf(g.Pkg.TypesInfo, call) != root.Obj {
+					return true
+				}
+				calls++
+				guarded := false
+				child := ast.Node(call)
+				for p := w.parent[call]; p != nil && p != g.Node(); child, p = p, w.parent[p] {
+					if is, ok := p.(*ast.IfStmt); ok && child == ast.Node(is.Body) && strings.HasSuffix(gx.str(is.Cond), ".IsVariadic()") {
+						guarded = true
+					}
+				}
+				if !guarded {
+					bad = w.Pos(call.Pos())
+				}
+				return true
+			})
+			if bad != "" {
+				return false, "the enclosing function is called at " + bad + " outside an IsVariadic() test"
+			}
+		}
+		if calls == 0 {
+			return false, "no call of the enclosing function found"
+		}
+		return true, ""
 	case req == "filled-by-range":
 		ix, ok := s.Node.(*ast.IndexExpr)
 		if !ok {
